@@ -44,7 +44,7 @@ Lemma lp_n buf v n : read_lp_bytes buf = ROk v n -> n = 2 + len v /\ n <= len bu
 Proof.
   rewrite read_lp_bytes_eq. destruct buf as [| b0 [| b1 r]]; try discriminate.
   cbv zeta. destruct (len r <? 256 * b2n b0 + b2n b1) eqn:E; [discriminate |].
-  intros H. injection H as <- <-. rewrite len_firstn, !len_cons. lia.
+  intros H. apply ROk_inj in H. destruct H as [<- <-]. rewrite len_firstn, !len_cons. lia.
 Qed.
 
 Lemma rd_at_safe {A} L src total (f : bytes -> rd A) k :
